@@ -586,7 +586,24 @@ func (g *G) TypedOp(kind string, s Schema, env *TEnv, joinDepth int) (Op, Schema
 			}
 		}
 		for len(conds) < 3 && g.n("extracond", 3) == 0 {
-			switch g.n("extrakind", 8) {
+			switch g.n("extrakind", 9) {
+			case 8:
+				// two key equalities over the same two column names, crossed
+				var shared []TCol
+				for _, lc := range li {
+					for _, rc := range ri {
+						if lc.Name == rc.Name {
+							shared = append(shared, lc)
+						}
+					}
+				}
+				if len(shared) >= 2 {
+					a, b := shared[0], shared[1]
+					conds = append(conds, &Binary{Op: "==", X: sideRef("$left", a.Name), Y: sideRef("$right", b.Name)},
+						&Binary{Op: "==", X: sideRef("$right", a.Name), Y: sideRef("$left", b.Name)})
+				} else {
+					conds = append(conds, eq(), eq())
+				}
 			case 7:
 				// arithmetic across the sides, right side first: the operands
 				// of - / % do not commute
